@@ -684,25 +684,61 @@ def c10(report, rng, tier, findings):
         case = dict(base)
         # the universal variable ranges over a non-empty domain of the root class
         all_objs = [('o', j) for j, _, _ in base['objs']]
-        uraw = rng.sample(all_objs, rng.randint(1, min(4, len(all_objs))))
+        uraw = rng.sample(all_objs, rng.randint(1 if rng.random() < 0.2 else 2, min(4, len(all_objs))))
         case['vars'] = [v if v[0] != u else (u, 'A', uraw) for v in base['vars']]
         case.update({'sel': sel, 'cond': outer or None, 'forall': (u, [body]), 'entity': len(sel) == 1,
                      'fa_mode': mode})
         # the universal argument may be an EXPRESSION over the universal variable (its values, falsy ones
         # included, are values, not conditions); it quantifies over the same objects
-        if rng.random() < 0.4:
-            case['forall_expr'] = rng.choice([('attr', 'b', ('var', u)), ('attr', 'a', ('var', u)),
-                                              ('attr', 'ref', ('var', u)), ('attr', 'flag', ('var', u))])
+        shape = rng.choice(('single',) * 6 + ('two_same', 'two_same', 'nested', 'nested', 'fa_first', 'free_after'))
+        case['fa_shape'] = shape
+        if shape == 'single':
+            if rng.random() < 0.4:
+                case['forall_expr'] = rng.choice([('attr', 'b', ('var', u)), ('attr', 'a', ('var', u)),
+                                                  ('attr', 'ref', ('var', u)), ('attr', 'flag', ('var', u))])
+        else:
+            # several for_all conjuncts / a for_all whose condition is a for_all / the for_all written first
+            del case['forall']
+            g2 = gen.CondGen(rng, cfg, ids)
+            if shape == 'two_same':
+                case['foralls'] = [([u], [body]), ([u], [g2.cond(rng.randint(0, 1))])]
+                case['fafirst'] = rng.random() < 0.5
+            elif shape == 'nested':
+                v = nv                   # a second universal variable, declared after the first
+                vraw = rng.sample(all_objs, rng.randint(1 if rng.random() < 0.2 else 2, min(3, len(all_objs))))
+                case['vars'] = case['vars'] + [(v, 'A', vraw)]
+                g3 = gen.CondGen(rng, cfg, list(range(nv + 1)) if rng.random() < 0.7 else free_ids + [v])
+                inner = g3.cond(rng.randint(0, 1))
+                case['foralls'] = [([u, v], [('and', body, inner) if rng.random() < 0.5 else inner])]
+                case['fafirst'] = rng.random() < 0.5
+            elif shape == 'fa_first':
+                case['foralls'] = [([u], [body])]
+                case['fafirst'] = True
+                if not outer:
+                    case['cond'] = [gen.CondGen(rng, cfg, free_ids).cond(rng.randint(0, 1))]
+            else:
+                # the universal variable is also mentioned, free, by a conjunct AFTER the for_all
+                case['foralls'] = [([u], [body])]
+                case['fafirst'] = True
+                case['cond'] = [gen.CondGen(rng, cfg, list(range(nv))).cond(rng.randint(0, 1))]
         cases.append(case)
     report.rule = ("queries an(set_of(free, [outer,] for_all(u, c))) with 1-2 free variables and a universal variable over 1-4 "
                    "objects; c mentions the universal and the free variables, only the free ones, or only the universal one; "
-                   "optionally conjoined with an outer condition; compared with {f | all(c(f,u) for u in U)}; caching on and off, "
+                   "optionally conjoined with an outer condition; half of the cases: two for_all conjuncts over the same "
+                   "universal variable, a for_all whose condition is a for_all over a second universal variable, the for_all "
+                   "written BEFORE the other conjunct, or a later conjunct that mentions the universal variable free; compared with {f | all(c(f,u) for u in U)}; caching on and off, "
                    "two evaluations; non-trivial = the universal domain has >= 2 values and the answer is neither empty nor everything")
 
+    def fa_entries(case):
+        return [([case['forall'][0]], case['forall'][1])] if case.get('forall') else list(case['foralls'])
+
     def nontriv(case, res):
-        return res['dom_sizes'].get(case['forall'][0], 0) >= 2 and nontrivial_filter(
-            {**case, 'vars': [v for v in case['vars'] if v[0] != case['forall'][0]]},
-            {**res, 'dom_sizes': {k: v for k, v in res['dom_sizes'].items() if k != case['forall'][0]}})
+        us = {u_ for us_, _ in fa_entries(case) for u_ in us_}
+        if case.get('fa_shape') == 'free_after':
+            us = set()
+        return all(res['dom_sizes'].get(u_, 0) >= 2 for u_ in us) and nontrivial_filter(
+            {**case, 'vars': [v for v in case['vars'] if v[0] not in us]},
+            {**res, 'dom_sizes': {k: v for k, v in res['dom_sizes'].items() if k not in us}})
 
     class J(QueryJudge):
         def __call__(self, case, res, drv):
@@ -711,9 +747,8 @@ def c10(report, rng, tier, findings):
             # known finding C10-F1: disjunctions over different variable sets (the intersection compares bindings of
             # different shapes) - attributed only if the model (which transliterates ForAll) reproduces the answer
             new = self.report.violations[n_before:]
-            u = case['forall'][0]
-            body_vars = set().union(*[surface.cond_vars(c) for c in case['forall'][1]])
-            if new and case.get('cond') and 'C05-F3' in self.findings:
+            entries = fa_entries(case)
+            if new and (case.get('cond') or len(entries) > 1) and 'C05-F3' in self.findings:
                 keep = []
                 for what, payload in new:
                     off_ok = all(canon(o[1], case) == payload.get('expected') for k, cfg in res['impl'].items()
@@ -724,7 +759,7 @@ def c10(report, rng, tier, findings):
                         keep.append((what, payload))
                 self.report.violations[n_before:] = keep
                 new = keep
-            if new and nonuniform_or(case['forall'][1][0]) and 'C10-F1' in self.findings:
+            if new and any(nonuniform_or(c) for _, cs in entries for c in cs) and 'C10-F1' in self.findings:
                 model = drv['model']
                 model_obs = canon(model[1], case) if model[0] == 'rows' else model
                 keep = []
@@ -738,7 +773,7 @@ def c10(report, rng, tier, findings):
     for c in cases:
         report.count('mode_' + c['fa_mode'])
         report.count('universal_expression' if c.get('forall_expr') else 'universal_variable')
-        report.count('universal_values_%d' % len([1 for v in c['vars'] if v[0] == c['forall'][0]][0:1]))
+        report.count('shape_' + c['fa_shape'])
     run_query_cases(report, cases, {'caching': (False, True), 'evals': 2}, judge)
     return ['EqlModel.Props.C10'], [
         "non-empty universal domain",
